@@ -32,8 +32,11 @@ try:
     if rc == 0:
         rc, out = sh("/verif/tools/repo_tests.sh")
         meta["suite_passes"] = rc == 0
+        only = os.environ.get("EVAL_CHECKS", "")
         for i in range(1, 20):
             c = f"C{i:02d}"
+            if only and c not in only.split(","):
+                continue
             t0 = time.time()
             rc, o = sh(f"./check.sh {c} quick", cwd="/verif")
             viol = [l[:500] for l in o.splitlines() if l.startswith("VIOLATION") or l.startswith("INCONCLUSIVE")]
